@@ -145,6 +145,24 @@ def cases(tier):
              'configs': configs(r, 2), 'reference': True}
         schedule(r, c, ne)
         out.append(c)
+    # --- small-scale / small-spread columns: non-constant columns whose entries lie very close
+    #     together in absolute terms (scaled by 2^-30, 2^-40) must still be correlated, not rejected
+    #     as 'constant' (seeded change C18_a: np.allclose in the constant-column test)
+    for i in range(12 if quick else 120):
+        n, no, ne = r.randint(3, 10), r.randint(1, 3), r.randint(1, 5)
+        k = r.choice([30, 40, 45])
+        sem_cols = int_matrix(r, n, no)
+        act_cols = int_matrix(r, n, ne)
+        which = r.choice(['sem', 'act', 'both'])
+        sc = lambda cols: [['%d/%d' % (v, 2 ** k) for v in col] for col in cols]  # noqa: E731
+        if which in ('sem', 'both'):
+            sem_cols = sc(sem_cols)
+        if which in ('act', 'both'):
+            act_cols = sc(act_cols)
+        c = {'stream': 'small_scale', 'sem': columns_to_rows(sem_cols, n), 'act': columns_to_rows(act_cols, n),
+             'allow_nan': False, 'configs': configs(r, 2), 'reference': True}
+        schedule(r, c, ne)
+        out.append(c)
     # --- degenerate columns: at every column position, every row position, both matrices
     fixed = [{'stream': 'degenerate', 'sem': [['3602879701896397/36028797018963968']] * 3,     # F9's witness
               'act': [[1, 0], [0, 1], [2, 2]], 'allow_nan': False,
